@@ -45,7 +45,8 @@ Den(i, e) ==
   CASE e.k = "all"    -> IF e.t \in DOMAIN i THEN i[e.t] ELSE {}
     [] e.k = "empty"  -> {}
     [] e.k = "union"  -> UNION {Den(i, e.qs[j]) : j \in DOMAIN e.qs}
-    [] e.k = "inter"  -> {x \in Den(i, e.qs[1]) : \A j \in DOMAIN e.qs : x \in Den(i, e.qs[j])}
+    [] e.k = "inter"  -> LET ds == [j \in DOMAIN e.qs |-> Den(i, e.qs[j])]     \* each operand evaluated once
+                         IN {x \in ds[1] : \A j \in DOMAIN e.qs : x \in ds[j]}
     [] e.k = "range"  -> {x \in Den(i, e.q) : e.b <= x /\ x < e.e}
     [] e.k = "prefix" -> UNION {i[t] : t \in {tt \in DOMAIN i : StartsWith(tt, e.p)}}
 
